@@ -1,6 +1,6 @@
 (* C18 — property theorems only.  Each is closed by [exact <lemma>] and followed by
    Print Assumptions; the statements are pinned here so they cannot be quietly weakened. *)
-From FB Require Import C18.Model C18.Theory.
+From FB Require Import C18.Model C18.Model2 C18.Theory C18.Theory2 C18.NamesGen.
 
 (* Parsing a field descriptor yields exactly the structure the JVMS grammar assigns to it,
    and fails on every string outside the grammar. *)
@@ -79,3 +79,193 @@ Print Assumptions C18_join_split.
 Theorem C18_examples : nonvacuous.
 Proof. exact nonvacuous_holds. Qed.
 Print Assumptions C18_examples.
+
+(* ================================================================== *)
+(* Round 4 *)
+
+(* MethodDescriptorSlice::get_arguments_size: on a well-formed method descriptor it is 1 (this) + the slots of the
+   parsed parameters (D and J count 2, everything else - arrays of D/J too - 1); above 255 it is an error *)
+Theorem C18_args_size_of_method : forall s ps r,
+  parse_method s = Ok (ps, r) ->
+  args_size s = if N.leb (args_slots ps) 255 then Ok (args_slots ps) else Err.
+Proof. exact args_size_of_method. Qed.
+Print Assumptions C18_args_size_of_method.
+
+(* ... and on ALL strings (it does not validate): Ok n exactly for `(` tokens `)` anything, n = 1 + the token slots <= 255 *)
+Theorem C18_args_size_all_strings : forall s n, args_size s = Ok n <-> LenientArgs s n.
+Proof. exact args_size_lenient. Qed.
+Print Assumptions C18_args_size_all_strings.
+
+Theorem C18_args_size_range : forall s n, args_size s = Ok n -> 1 <= n <= 255.
+Proof. exact args_size_range. Qed.
+Print Assumptions C18_args_size_range.
+
+(* ClassName = ArrClassName + ObjClassName, decided by the leading `[` (as_arr_and_obj, into_arr/into_obj, as_arr/as_obj,
+   From<ArrClassName>/From<ObjClassName> for ClassName, as_class_name: what their SAFETY comments claim) *)
+Theorem C18_class_name_partition : forall s,
+  is_valid_class_name s = (if is_array_name s then is_valid_arr_class_name s else is_valid_obj_class_name s).
+Proof. exact class_name_partition. Qed.
+Print Assumptions C18_class_name_partition.
+
+Theorem C18_class_name_conversions : forall s,
+  (is_valid_class_name s = true -> forall a, as_arr s = Some a -> a = s /\ is_valid_arr_class_name a = true) /\
+  (is_valid_class_name s = true -> forall o, as_obj s = Some o -> o = s /\ is_valid_obj_class_name o = true) /\
+  (is_valid_arr_class_name s = true -> is_valid_class_name s = true /\ as_arr s = Some s /\ as_obj s = None) /\
+  (is_valid_obj_class_name s = true -> is_valid_class_name s = true /\ as_obj s = Some s /\ as_arr s = None) /\
+  (is_valid_arr_class_name s = true -> is_valid_obj_class_name s = false).
+Proof. exact class_name_conversions. Qed.
+Print Assumptions C18_class_name_conversions.
+
+(* an array class name is valid iff it is a valid field descriptor that starts with `[` *)
+Theorem C18_arr_class_name_is_field_descriptor : forall s,
+  is_valid_arr_class_name s = true <-> (exists r, s = cLBRACK :: r) /\ exists t, FieldTypeG s t.
+Proof. exact arr_class_name_is_field_descriptor. Qed.
+Print Assumptions C18_arr_class_name_is_field_descriptor.
+
+(* ArrClassNameSlice::dimension on a valid array class name: 1..255, no u8 truncation, no assertion failure, and the
+   dimension of the parsed descriptor *)
+Theorem C18_arr_dimension : forall s, ArrClassNameG s ->
+  exists d a, FT s d a /\ 1 <= d <= 255 /\ arr_dimension s = Ok d /\ parse_field s = Ok (TArr d a).
+Proof. exact arr_dimension_spec. Qed.
+Print Assumptions C18_arr_dimension.
+
+Theorem C18_arr_dimension_panics_iff : forall s, arr_dimension s = Err <-> N.modulo (count_leading s) 256 = 0.
+Proof. exact arr_dimension_total. Qed.
+Print Assumptions C18_arr_dimension_panics_iff.
+
+(* FieldDescriptor::from_class / from_obj_class / from_arr_class *)
+Theorem C18_desc_of_class : forall s,
+  (ClassNameG s -> desc_of_class s = desc_of_obj_class s /\ parse_field (desc_of_class s) = Ok (TObj s)) /\
+  (ArrClassNameG s -> desc_of_class s = s /\ exists d a, parse_field (desc_of_class s) = Ok (TArr d a)).
+Proof. exact desc_of_class_spec. Qed.
+Print Assumptions C18_desc_of_class.
+
+(* From<FieldDescriptor> for ReturnDescriptor *)
+Theorem C18_field_is_return : forall s t, parse_field s = Ok t <-> parse_return s = Ok (Some t).
+Proof. exact field_is_return. Qed.
+Print Assumptions C18_field_is_return.
+
+(* the inner-class helpers only produce valid object class names (their SAFETY comments) *)
+Theorem C18_join_inner_valid : forall p i, ClassNameG p -> ClassNameG i -> ClassNameG (join_inner p i).
+Proof. exact join_inner_valid. Qed.
+Print Assumptions C18_join_inner_valid.
+
+Theorem C18_split_inner_valid : forall s p i,
+  ClassNameG s -> split_inner s = Some (p, i) ->
+  ClassNameG p /\ Unq i /\ ClassNameG i /\ inner_parent s = Some p /\ inner_name s = Some i.
+Proof. exact split_inner_valid. Qed.
+Print Assumptions C18_split_inner_valid.
+
+Theorem C18_simple_name_valid : forall s, ClassNameG s ->
+  Unq (get_simple_name s) /\
+  ((s = get_simple_name s /\ ~ In cSLASH s) \/ (exists p, ClassNameG p /\ s = p ++ cSLASH :: get_simple_name s)).
+Proof. exact simple_name_valid. Qed.
+Print Assumptions C18_simple_name_valid.
+
+(* which predicate guards which checked newtype: the table translate/c18_newtypes.py regenerates from
+   duke/src/macros.rs + every make_string_str_like! call site is this one *)
+Theorem C18_newtype_guards : gen_newtypes =
+  [ (n_ArrClassName, GArrClassName); (n_ClassName, GClassName); (n_ClassSignature, GAlways);
+    (n_FieldDescriptor, GAlways); (n_FieldName, GUnqualified); (n_FieldSignature, GAlways);
+    (n_LocalVariableName, GUnqualified); (n_MethodDescriptor, GAlways); (n_MethodName, GMethodName);
+    (n_MethodSignature, GAlways); (n_ModuleName, GAlways); (n_ObjClassName, GObjClassName);
+    (n_PackageName, GAlways); (n_ParameterName, GUnqualified); (n_RecordName, GAlways);
+    (n_ReturnDescriptor, GAlways) ].
+Proof. exact newtype_guards. Qed.
+Print Assumptions C18_newtype_guards.
+
+(* and the literals of `mod names` (excluded characters, special method names, `[`, `/`) are the model's *)
+Theorem C18_predicate_literals :
+  gen_unq_excluded = [cDOT; cSLASH; cSEMI; cLBRACK] /\
+  gen_meth_excluded = [cDOT; cSLASH; cSEMI; cLT; cGT; cLBRACK] /\
+  gen_meth_special = [s_clinit; s_init] /\
+  Forall (eq cLBRACK) gen_array_marker /\ Forall (eq cSLASH) gen_separator.
+Proof. exact predicate_literals. Qed.
+Print Assumptions C18_predicate_literals.
+
+Theorem C18_predicate_literals_model : forall c,
+  unq_char c = negb (mem_N c gen_unq_excluded) /\ meth_char c = negb (mem_N c gen_meth_excluded).
+Proof. exact predicate_literals_model. Qed.
+Print Assumptions C18_predicate_literals_model.
+
+(* every guard accepts exactly its grammar, so every newtype of the table accepts exactly the language of its row *)
+Theorem C18_guard_spec : forall g s, guard_pred g s = true <-> guard_lang g s.
+Proof. exact guard_spec. Qed.
+Print Assumptions C18_guard_spec.
+
+Theorem C18_name_types_guarded :
+  lookup_guard n_ClassName gen_newtypes = Some GClassName /\
+  lookup_guard n_ArrClassName gen_newtypes = Some GArrClassName /\
+  lookup_guard n_ObjClassName gen_newtypes = Some GObjClassName /\
+  lookup_guard n_FieldName gen_newtypes = Some GUnqualified /\
+  lookup_guard n_MethodName gen_newtypes = Some GMethodName /\
+  lookup_guard n_ParameterName gen_newtypes = Some GUnqualified /\
+  lookup_guard n_LocalVariableName gen_newtypes = Some GUnqualified.
+Proof. exact name_types_guarded. Qed.
+Print Assumptions C18_name_types_guarded.
+
+(* Display of the name types (make_display!): the string itself, an error exactly when it holds a surrogate *)
+Theorem C18_display : forall s,
+  (display s = Ok s <-> Forall (fun c => is_surrogate c = false) s) /\ (forall r, display s = Ok r -> r = s).
+Proof. exact display_spec. Qed.
+Print Assumptions C18_display.
+
+(* the writers on arbitrary values: write() panics (its assertion) exactly when the class name inside starts with `[`,
+   otherwise it prints print_ty; well-formed values never panic; the round trip holds EXACTLY on the well-formed values *)
+Theorem C18_write_total : forall t,
+  (print_ty_res t = Err <-> exists n, name_of_ty t = Some n /\ starts_with [cLBRACK] n = true) /\
+  (forall s, print_ty_res t = Ok s -> s = print_ty t).
+Proof. exact print_ty_res_spec. Qed.
+Print Assumptions C18_write_total.
+
+Theorem C18_write_wf_no_panic : forall m, wf_method m -> print_method_res m = Ok (print_method m).
+Proof. exact wf_print_method_res. Qed.
+Print Assumptions C18_write_wf_no_panic.
+
+Theorem C18_field_roundtrip_iff_wf : forall t, parse_field (print_ty t) = Ok t <-> wf_ty t.
+Proof. exact field_roundtrip_iff_wf. Qed.
+Print Assumptions C18_field_roundtrip_iff_wf.
+
+Theorem C18_return_roundtrip_iff_wf : forall r, parse_return (print_return r) = Ok r <-> wf_ret r.
+Proof. exact return_roundtrip_iff_wf. Qed.
+Print Assumptions C18_return_roundtrip_iff_wf.
+
+Theorem C18_method_roundtrip_iff_wf : forall m, parse_method (print_method m) = Ok m <-> wf_method m.
+Proof. exact method_roundtrip_iff_wf. Qed.
+Print Assumptions C18_method_roundtrip_iff_wf.
+
+(* a string has at most one structure *)
+Theorem C18_grammar_unambiguous :
+  (forall s t t', FieldTypeG s t -> FieldTypeG s t' -> t = t') /\
+  (forall s r r', ReturnG s r -> ReturnG s r' -> r = r') /\
+  (forall s m m', MethodG s m -> MethodG s m' -> m = m').
+Proof. exact grammar_unambiguous. Qed.
+Print Assumptions C18_grammar_unambiguous.
+
+(* the letter tables of read_field_type / write_field_type / get_arguments_size, regenerated from descriptor.rs, are the
+   JVMS ones the model uses: each of B C D F I J S Z yields (and is printed by) the variant of the same name, with and
+   without dimensions; the dimension cap is 255; `L` … `;` delimit a class name, `[` counts a dimension; D and J are the
+   wide letters, the slot counts are 1 and 2 on top of 1 for `this` *)
+Theorem C18_descriptor_tables :
+  gen_read_prims = prim_letters /\ gen_read_arrs = prim_letters /\
+  gen_write_prims = prim_letters /\ gen_write_arrs = prim_letters /\
+  gen_max_dim = 255 /\ Forall (eq cL) gen_obj_open /\ Forall (eq cSEMI) gen_obj_close /\ Forall (eq cLBRACK) gen_dim_marker /\
+  incl gen_write_pushed [cSEMI; cB; cC; cD; cF; cI; cJ; cL; cS; cZ; cLBRACK] /\
+  incl gen_args_letters [cLPAR; cRPAR; cSEMI; cD; cJ; cL; cLBRACK] /\ incl gen_args_adds [1; 2] /\ gen_args_init = 1.
+Proof. exact descriptor_tables. Qed.
+Print Assumptions C18_descriptor_tables.
+
+Theorem C18_descriptor_tables_model : forall c v,
+  In (c, v) gen_read_prims ->
+  exists a, aty_letter a = Some v /\
+            (forall r, read_base (c :: r) = Ok (a, r)) /\
+            (forall r, read_field_type (c :: r) = Ok (ty_of_aty a, r)) /\
+            (forall k r, (1 <= k <= 255)%nat ->
+                         read_field_type (repeat cLBRACK k ++ c :: r) = Ok (TArr (N.of_nat k) a, r)) /\
+            print_aty a = [c] /\ print_ty (ty_of_aty a) = [c] /\ In (v, c) gen_write_prims /\ In (v, c) gen_write_arrs.
+Proof. exact descriptor_tables_model. Qed.
+Print Assumptions C18_descriptor_tables_model.
+
+Theorem C18_examples2 : nonvacuous2.
+Proof. exact nonvacuous2_holds. Qed.
+Print Assumptions C18_examples2.
